@@ -66,7 +66,10 @@ def cfgs_full():
 
 def cases(tier, seed):
     out = []
-    specs = G.adversarial_specs() + G.core_specs()[:3]
+    from pgfmc.model import specs as S
+    # bounds that are not representable in single precision (and not binary fractions)
+    odd = [S.mk(2, "qdiag", [], ["odd", "odd"], x0_idx=0), S.mk(2, "cubic", [("affine", "ranged")], ["odd", "free"], x0_idx=1)]
+    specs = G.adversarial_specs() + G.core_specs()[:3] + odd
     idx = 0
     if tier == "quick":
         table = [(spec, cfg) for spec in specs for cfg in cfgs_pairs()]
